@@ -562,10 +562,16 @@ class DateTime(Column):
                 value = datetime(value.year, value.month, value.day)
             else:
                 raise ValidationError("{0} '{1}' is not a datetime object".format(self.column_name, value))
-        epoch = datetime(1970, 1, 1, tzinfo=value.tzinfo)
-        offset = get_total_seconds(epoch.tzinfo.utcoffset(epoch)) if epoch.tzinfo else 0
-
-        return int((get_total_seconds(value - epoch) - offset) * 1000)
+        # exact integer arithmetic on the instant: float seconds lose a millisecond for some
+        # dates, and the UTC offset of an aware value must be the one in force at the value
+        # itself (not at the epoch), which the subtraction of aware datetimes takes care of
+        if value.utcoffset() is not None:
+            delta = value - datetime(1970, 1, 1, tzinfo=timezone.utc)
+        else:
+            delta = value.replace(tzinfo=None) - datetime(1970, 1, 1)
+        micros = (delta.days * 86400 + delta.seconds) * 1000000 + delta.microseconds
+        # truncate toward zero, as before and as the core DateType encoder does
+        return micros // 1000 if micros >= 0 else -(-micros // 1000)
 
 
 class Date(Column):
